@@ -20,7 +20,7 @@ ASSUMPTIONS = ["fshift is linear in its signal argument (monitored on random com
                "for even n the Nyquist bin of a real signal cannot carry a fractional delay: additivity there is asserted only for "
                "integer shifts or Nyquist-free signals"]
 REQUIRED = {"contract:fshift_shape_dtype": 500, "contract:fshift_input_untouched": 500, "roll_checked": 200,
-            "additivity_checked": 50, "analytic_checked": 50, "corrmax_checked": 50, "pertrace_checked": 50,
+            "additivity_checked": 50, "analytic_checked": 50, "corrmax_checked": 50, "pertrace_checked": 50, "nonfinite_inputs": 50,
             "shift_waveform_checked": 3, "parabolic_checked": 50}
 CASE_TIMEOUT = 200.0
 
@@ -251,6 +251,22 @@ def run_case(case):
                 rhs = al * fshift(z, float(a), axis=ax) + be * fshift(z2, float(a), axis=ax)
                 e4 = np.max(np.abs(lhs - rhs)) / (np.max(np.abs(z)) + np.max(np.abs(z2)))
                 res.check(e4 <= (1e-9 if dt == np.float64 else 1e-3), "fshift:linearity", f"n={n} linearity err {e4:.3g}")
+                # inputs holding missing / clipped samples (NaN, +-inf) and read-only inputs: the call returns shape and dtype and the caller's
+                # array is not written to (the installed contracts compare the input before / after, NaN-aware)
+                zbad = z.copy()
+                flat = zbad.reshape(-1)
+                flat[rng.integers(0, flat.size, max(1, flat.size // 50))] = rng.choice([np.nan, np.inf, -np.inf])
+                keep = zbad.copy()
+                try:
+                    yb = fshift(zbad, float(a), axis=ax)
+                    res.check(yb.shape == zbad.shape and yb.dtype == zbad.dtype and np.array_equal(zbad, keep, equal_nan=True), "fshift:input-mutated:non-finite",
+                              f"n={n} axis={ax} {np.dtype(dt).name}: input with NaN / inf samples was modified (or shape / dtype changed)", counter="nonfinite_inputs")
+                    zro = z.copy()
+                    zro.setflags(write=False)
+                    yr = fshift(zro, float(a), axis=ax)
+                    res.check(np.array_equal(yr, fshift(z, float(a), axis=ax)), "fshift:read-only-input", f"n={n} axis={ax}: read-only input gives another result")
+                except Exception as e:
+                    res.exception("fshift:input-mutated:exception", e, f"n={n} axis={ax} non-finite / read-only input")
                 # per-trace fractional shifts == trace-by-trace scalar shifts
                 if nd == 2:
                     other = shp[1 - (ax % nd)]
